@@ -7,6 +7,7 @@ from .. import paths
 from ..core import FUNC, call_attr, calls_in, const, dotted, is_const, kwarg, norm, text, walk_local
 
 EXPLANATION = [
+    'C15.zero-valid: the optional integer-valued fields of the stored key objects (address_type, ediv) are tested for presence with `is None` everywhere in keys / device / smp, never by truthiness or `x or default`: address type 0 (public) and EDIV 0 read back as stored.',
     'C15.update-precedence: JsonKeyStore.update merges the new fields into the stored entry (stored.update(new)), so later updates override earlier ones.',
     'C15.atomic-write: the only write-mode open in keys.py targets the ".tmp" sibling; os.replace(tmp, filename) comes after the '
     '`with` block has closed the file (not inside it); nothing else in the module writes, truncates, renames or removes files; '
@@ -102,6 +103,11 @@ def atomic_write(ctx):
         R.check(outs and all(v == 'saved' for k, v in outs), rule, f'{JS}.{name} | persists', f'load -> mutate {kmv} -> save({dbv}) on every path', f'{name}() does not reach save({dbv}) after mutating on every path: {sorted(outs)}', p.loc(fn))
         # the mutation acts on the namespace's key map only
         muts = [norm(n) for n in walk_local(fn) if isinstance(n, (ast.Delete, ast.Expr)) and kmv and kmv in norm(n) and 'save' not in norm(n)]
+        # the set of namespaces in the file never shrinks through a mutator: which key set a default-namespace store resolves
+        # to depends on the namespaces present, so removing one silently re-binds other stores
+        drops = [norm(n) for n in ast.walk(fn) if dbv and ((isinstance(n, ast.Call) and isinstance(n.func, ast.Attribute) and n.func.attr in ('pop', 'popitem', 'clear') and dotted(n.func.value) == dbv)
+                                                      or (isinstance(n, ast.Delete) and any(isinstance(t_, ast.Subscript) and dotted(t_.value) == dbv for t_ in n.targets)))]
+        R.check(not drops, rule, f'{JS}.{name} | namespaces kept', f'never removes a namespace from {dbv}', f'{name}() removes a namespace from the file ({drops[:1]}): a default-namespace store sharing the file then resolves to another store\'s key set', p.loc(fn))
         R.check(bool(muts) and not any(dbv and (f'{dbv}[' in x or f'{dbv}.' in x) for x in muts), rule, f'{JS}.{name} | namespace isolation', f'mutates only {kmv} (this namespace\'s map)', f'{name}() touches the database outside its own namespace: {muts}', p.loc(fn))
 
 
@@ -238,7 +244,13 @@ def update_precedence(ctx):
             'update() keeps the stored fields in preference to the new ones: re-pairing does not replace the old keys, the store no longer equals the updates applied in order', p.loc(fn))
 
 
+def zero_valid_rule(ctx):
+    from ..zero_valid import zero_valid_attrs
+    zero_valid_attrs(ctx, 'C15.zero-valid', ['bumble.keys'], ['bumble.keys', 'bumble.device', 'bumble.smp'], int_like=('int', 'AddressType'))
+
+
 RULES = [
+    ('C15.zero-valid', zero_valid_rule),
     ('C15.update-precedence', update_precedence),
     ('C15.atomic-write', atomic_write),
     ('C15.load-shape', load_shape),
